@@ -94,7 +94,12 @@ CHECKS["C19"] = dict(
    text="Static part (exhaustive): all 11x11 ordered pairs of numeric primitives x {+,-,*,/,**}: yardl gives a verdict for each; verdict and declared result type are symmetric in the operands; the C++ return type and the Python annotation agree; ** yields float64. Dynamic part: generated well-typed expressions (field access, literals, + - * / **, unary minus, casts, vector indexing, size(), explicit parentheses in every association pattern) over a record with one field per numeric primitive are evaluated on generated operand values by the compiled C++ and the Python code; both must equal the exact rational value whenever the documents define it and it fits the declared type (integers exactly, reals within 1e-6/1e-12/1e-9 relative).",
    note="trusted: harness/ref/expr.go (exact evaluator and the conservative 'in range' gate); evaluations the documents do not define (non-exact integer division, rounding casts, overflow) are not judged; MATLAB code is not executed",
    ref="DESIGN.md section 3 (C19)")
-NOT_YET = {"C05": "not built yet (evolution data conversions; planned)", "C19": "not built yet (computed fields; planned)", "C20": "not built yet (watch mode; planned)"}
+CHECKS["C05"] = dict(
+   technique="model-based property testing of version chains: generated models evolved by documented edits, reference encoder/decoder and a three-valued documented-conversion function as oracle against the compiled generated C++ reader/writer",
+   text="Exploration: chains M0 -> M1 (-> M2) of generated models, each step 1-2 compatible or partially compatible edits of docs/cpp/evolution.md at generated positions; the newest package lists every predecessor and is compiled (g++) with a driver that can construct the writer with Version::<label>. Read direction: reference-encoded streams of generated values of every old version -> current reader -> current writer -> reference decoder = documented conversion. Write direction: current values -> writer targeting each old version -> must decode under the old model, carry the old schema in its header and equal the documented conversion. Chains yardl rejects are discarded and counted; the conversion oracle (harness/ref/evolve.go, written from the document) returns exact value / error allowed / not documented, and only the first is compared.",
+   note="trusted: the harness's reference binary codec (itself cross-checked against the generated code by C01) and its transcription of the conversion table in docs/cpp/evolution.md; C++ binary only (the only combination for which evolution is documented); NaN/inf floats, rounding and number->string text are not judged",
+   ref="DESIGN.md section 3 (C05)")
+NOT_YET = {}
 
 props = [json.loads(l) for l in open("properties.jsonl")]
 checks = []
